@@ -11,6 +11,7 @@ import (
 	"github.com/apmckinlay/gsuneido/core"
 	"pgregory.net/rapid"
 	"verifharness/internal/ev"
+	"verifharness/internal/gen"
 	"verifharness/internal/kf"
 	"verifharness/internal/rt"
 )
@@ -52,7 +53,20 @@ func TestC22(t *testing.T) {
 
 	rt.Check(t, rec, "plans", 1500, 30000, func(t *rapid.T) {
 		t0 := time.Now()
-		c := newCase(t, rec, maxDepth, "C22")
+		var c *caseT
+		pct := 4
+		if ev.Thorough() {
+			pct = 12
+		}
+		var mk *manyKeyT
+		if gen.Chance(t, "manykey", pct) {
+			saved := maxModelRows
+			maxModelRows = 6000
+			defer func() { maxModelRows = saved }()
+			c, mk = manyKeyCase(t, rec)
+		} else {
+			c = newCase(t, rec, maxDepth, "C22")
+		}
 		if c == nil {
 			return
 		}
@@ -135,6 +149,19 @@ func TestC22(t *testing.T) {
 		c.labels(rec)
 		rec.LabelN("plans_run", nplans)
 		rec.LabelIf(len(strategies) >= 2, "strategies>=2")
+		if mk != nil {
+			rec.Label("manykey_case")
+			rec.LabelIf(mk.distinct > 223, "manykey_distinct_lookup_keys>223")
+			rec.LabelIf(mk.relookups > 0, "manykey_relookup_of_evicted_key")
+			rec.LabelN("manykey_relookups_of_evicted_keys_total", mk.relookups)
+			lookup := false
+			for s := range strategies {
+				if strings.Contains(s, "n:1") || strings.Contains(s, "intersect") || strings.Contains(s, "minus") || strings.Contains(s, "union-lookup") {
+					lookup = true
+				}
+			}
+			rec.LabelIf(lookup, "manykey_lookup_strategy(n:1/intersect/minus/union-lookup)")
+		}
 		if c.multiFixedLeading() {
 			rec.Label("multi_fixed_on_leading_index_col")
 			seq := false
@@ -160,4 +187,108 @@ func TestC22(t *testing.T) {
 				"result_rows": len(c.model.rows), "strategies": ss})
 		}
 	})
+}
+
+// manyKeyT describes the lookup pattern of a many-key case.
+type manyKeyT struct {
+	distinct  int // distinct lookup keys
+	relookups int // lookups of a key that an LRU of 223 entries would have evicted
+}
+
+// manyKeyCase: a "one" table tone (260-380 rows, key(k)) and a "many" table
+// tmany (3-5 times as many rows, key(k2)) whose column k refers to tone's keys
+// at random with replacement and some locality, so that a lookup cache of ~223
+// entries keeps a hit rate well above 25 % and keys are looked up again after
+// they have been evicted. Requests: tmany join/leftjoin tone (many to one
+// lookups) with where/extend/rename around, or intersect/minus/union of
+// projections of the two tables on k.
+func manyKeyCase(t *rapid.T, rec *ev.Rec) (*caseT, *manyKeyT) {
+	pk := func(i int) string { return core.Pack(core.IntVal(i).(core.Packable)) }
+	nk := rng(t, "mk_nkeys", 260, 380)
+	one := &tableT{name: "tone", cols: []colT{{name: "k", typ: tNum}, {name: "n1", typ: tNum}, {name: "s1", typ: tStr}}, keys: [][]string{{"k"}}}
+	missing := map[int]bool{}
+	for i := 0; i < rng(t, "mk_nmissing", 0, 4); i++ {
+		missing[rng(t, "mk_missing", 1, nk)] = true
+	}
+	for i := 1; i <= nk; i++ {
+		if !missing[i] {
+			one.rows = append(one.rows, []string{pk(i), pk(5000 + i), strLits[1+i%5].packed})
+		}
+	}
+	many := &tableT{name: "tmany", cols: []colT{{name: "k2", typ: tNum}, {name: "k", typ: tNum}, {name: "n2", typ: tNum}}, keys: [][]string{{"k2"}}}
+	if gen.Chance(t, "mk_manyidx", 25) {
+		many.indexes = [][]string{{"n2"}}
+	}
+	nm := nk * rng(t, "mk_factor", 3, 5)
+	var seq []int
+	for i := 1; i <= nm; i++ {
+		fk := rng(t, "mk_fk", 1, nk)
+		if len(seq) > 3 && gen.Chance(t, "mk_local", 30) {
+			fk = seq[len(seq)-1-gen.Uniform(t, "mk_back", 3)]
+		}
+		seq = append(seq, fk)
+		many.rows = append(many.rows, []string{pk(i), pk(fk), pk(i % 7)})
+	}
+	// what an LRU of 223 entries sees when the keys are looked up in this order
+	mk := &manyKeyT{}
+	var lru []int
+	seen := map[int]bool{}
+	for _, fk := range seq {
+		pos := -1
+		for i, x := range lru {
+			if x == fk {
+				pos = i
+			}
+		}
+		if pos >= 0 {
+			lru = append(lru[:pos], lru[pos+1:]...)
+		} else if seen[fk] {
+			mk.relookups++
+		}
+		seen[fk] = true
+		lru = append(lru, fk)
+		if len(lru) > 223 {
+			lru = lru[1:]
+		}
+	}
+	mk.distinct = len(seen)
+	small := genTable(t, "ta", "")
+	d := &dbT{tables: []*tableT{one, many, small}}
+	g := &qgen{t: t, db: d}
+	var q *qnode
+	l, r := tableNode(many), tableNode(one)
+	switch gen.Weighted(t, "mk_shape", []int{5, 3, 1, 1, 1}) {
+	case 0, 1:
+		if gen.Chance(t, "mk_wl", 25) {
+			l = g.where(l)
+		}
+		if gen.Chance(t, "mk_wr", 20) {
+			r = g.where(r)
+		}
+		q = g.join([]string{"join", "leftjoin"}[gen.Uniform(t, "mk_op", 2)], l, r)
+	case 2, 3, 4:
+		pl := &qnode{op: "project", src: l, cols: []string{"k"}, out: []colT{{name: "k", typ: tNum}}}
+		pr := &qnode{op: "project", src: r, cols: []string{"k"}, out: []colT{{name: "k", typ: tNum}}}
+		op := []string{"intersect", "minus", "union"}[gen.Uniform(t, "mk_cop", 3)]
+		q = &qnode{op: op, src: pl, src2: pr, out: pl.out}
+		if gen.Chance(t, "mk_swap", 40) {
+			q.src, q.src2 = pr, pl
+		}
+	}
+	switch gen.Uniform(t, "mk_wrap", 6) {
+	case 0:
+		q = g.where(q)
+	case 1:
+		q = g.extend(q)
+	case 2:
+		q = g.rename(q)
+	}
+	tq := &topQ{q: q}
+	if gen.Chance(t, "mk_sort", 20) {
+		if _, ok := q.outCol("k2"); ok {
+			tq.sort = []string{"k2"}
+			tq.reverse = gen.Chance(t, "reverse", 50)
+		}
+	}
+	return finishCase(t, rec, d, tq, "C22"), mk
 }
